@@ -245,6 +245,18 @@ func unmarshalJSONInternal(
 	return datatree, nil
 }
 
+// jsonInteger returns the value of an integer leaf as a JSON number: YANG
+// allows leading zeros and a plus sign ("007", "+5"), JSON does not.
+func jsonInteger(value string) string {
+	if i, err := strconv.ParseInt(value, 10, 64); err == nil {
+		return strconv.FormatInt(i, 10)
+	}
+	if u, err := strconv.ParseUint(value, 10, 64); err == nil {
+		return strconv.FormatUint(u, 10)
+	}
+	return value
+}
+
 func (jw *JSONWriter) writeValue(sn schema.Node, value string) {
 	switch tt := sn.Type().(type) {
 	case schema.Empty:
@@ -262,7 +274,7 @@ func (jw *JSONWriter) writeValue(sn schema.Node, value string) {
 			buf, _ := json.Marshal(value)
 			jw.Write(buf)
 		} else {
-			jw.WriteString(value)
+			jw.WriteString(jsonInteger(value))
 		}
 	case schema.Integer:
 		// Write the raw value out as a native JSON type
@@ -270,7 +282,7 @@ func (jw *JSONWriter) writeValue(sn schema.Node, value string) {
 			buf, _ := json.Marshal(value)
 			jw.Write(buf)
 		} else {
-			jw.WriteString(value)
+			jw.WriteString(jsonInteger(value))
 		}
 	default:
 		// Treat as a string, with appropriate escaping and quotes.
